@@ -98,6 +98,15 @@ class Prov:
                 return {("default", fns)}
             if any(callee.endswith(p) for p in PASS_THROUGH) and e[2]:
                 return self.origins(fnpath, e[2][0], depth + 1, seen)
+            # a helper that is not one of the baseline functions is part of its callers: what it returns is
+            # judged as if written in the calling function
+            unknown = set((getattr(self.ctx.facts, "norm", None) or {}).get("unknown") or [])
+            if strip_generics(callee) in unknown:
+                hp = [p for p in self.cg.bodies if strip_generics(p) == strip_generics(callee)]
+                if len(hp) == 1:
+                    sub = self.origins(hp[0], ("var", "_0", 0), depth + 1, seen)
+                    hs = strip_generics(hp[0])
+                    return {(o[0], fns if o[1] == hs else o[1]) for o in sub}
             return {("call:" + callee, fns)}
         if k == "agg":
             return {("literal:" + e[1], fns)}
